@@ -59,6 +59,14 @@ pub const SYMBOLS: &[(&str, Sym)] = &[
     ("nested-unit-option", Sym::Type("Option<Option<()>>")),
     ("reference-mut", Sym::Type("&'static mut u32")),
     ("shadowed-std-name", Sym::Type("Vec<Vec>")),
+    // reference shapes: cycles in which a type is mentioned more than once (the dependency walk must still terminate)
+    ("recursive-two-self-fields", Sym::Item("#[typeshare]\npub struct EdgeTree { pub left: Option<Box<EdgeTree>>, pub right: Option<Box<EdgeTree>>, pub v: u32 }\n")),
+    ("recursive-enum-two-self", Sym::Item("#[typeshare]\n#[serde(tag = \"t\", content = \"c\")]\npub enum EdgeExpr { Add { lhs: Box<EdgeExpr>, rhs: Box<EdgeExpr> }, Neg(Box<EdgeExpr>), Lit(u32) }\n")),
+    ("mutual-recursion-twice", Sym::Item("#[typeshare]\npub struct EdgeMa { pub b1: Option<Box<EdgeMb>>, pub b2: Vec<EdgeMb> }\n#[typeshare]\npub struct EdgeMb { pub a1: Option<Box<EdgeMa>>, pub a2: Vec<EdgeMa> }\n")),
+    ("recursive-via-alias", Sym::Item("#[typeshare]\npub type EdgeKids = Vec<EdgeNode>;\n#[typeshare]\npub struct EdgeNode { pub kids: EdgeKids, pub more: EdgeKids }\n")),
+    ("recursive-generic-self", Sym::Item("#[typeshare]\npub struct EdgeRg<T> { pub a: Option<Box<EdgeRg<T>>>, pub b: Vec<EdgeRg<T>>, pub t: T }\n")),
+    ("diamond-into-cycle", Sym::Item("#[typeshare]\npub struct EdgeDa { pub b: EdgeDb, pub c: EdgeDc }\n#[typeshare]\npub struct EdgeDb { pub d: EdgeDd }\n#[typeshare]\npub struct EdgeDc { pub d: EdgeDd }\n#[typeshare]\npub struct EdgeDd { pub a1: Option<Box<EdgeDa>>, pub a2: Vec<EdgeDa> }\n")),
+    ("map-of-self", Sym::Item("#[typeshare]\npub struct EdgeMs { pub m: HashMap<String, EdgeMs>, pub n: HashMap<String, Vec<EdgeMs>> }\n")),
     ("empty-tuple-struct", Sym::Item("#[typeshare]\npub struct EdgeEmptyTuple();\n")),
     ("empty-tuple-variant", Sym::Item("#[typeshare]\n#[serde(tag = \"t\", content = \"c\")]\npub enum EdgeEmptyVariant { V(), W(u32) }\n")),
     ("empty-enum", Sym::Item("#[typeshare]\npub enum EdgeEmptyEnum {}\n")),
